@@ -177,3 +177,26 @@ Example C09_add_switch_ok_ex :
   let r := op_add_switch Experiment (S "sw1") None 0 [] tVLAN None 2 None (mkSt g_two_nodes supply) in
   snd r = Ok 50 /\ List.length (gnodes (sg (fst r))) = 13%nat.
 Proof. exact ex_switch_ok. Qed.
+
+(* ---- NetworkService.peer: port on this service, port on the other service, link - no rollback; the refusal
+   of the second step is even reported as TopologyException *)
+Theorem C09_peer_atomic_refuted :
+  exists fl a b pure g fresh s',
+    wf_graph g = true /\ op_peer fl a b pure (mkSt g fresh) = (s', Err ETopology) /\ sg s' <> g.
+Proof. exact peer_atomic_refuted. Qed.
+Print Assumptions C09_peer_atomic_refuted.
+
+(* ... atomic when the first step (the port on the calling service: duplicate name, name too long, invalid
+   property, substrate topology) is the one refused *)
+Theorem C09_peer_atomic_partial : forall fl a b pure s s' e,
+  op_peer fl a b pure s = (s', Err e) ->
+  (forall an bn ca s1 id, node_name (sg s) a = Ok an -> node_name (sg s) b = Ok bn ->
+       service_iface_names (sg s) a = Ok ca ->
+       add_interface_cached fl a ca (an ++ dash ++ bn) None (Some tServicePort) pure s <> (s1, Ok id)) ->
+  sg s' = sg s.
+Proof. exact peer_first_step. Qed.
+Print Assumptions C09_peer_atomic_partial.
+Example C09_peer_ok_ex :
+  let r := op_peer Experiment 30 31 None (mkSt (mkGraph (firstn 2 (gnodes g_two_services)) []) supply) in
+  snd r = Ok tt /\ List.length (gnodes (sg (fst r))) = 5%nat /\ List.length (gedges (sg (fst r))) = 4%nat.
+Proof. exact ex_peer_ok. Qed.
